@@ -322,6 +322,11 @@ func genB(tier string) []proto.RTItem {
 			items = append(items, proto.RTItem{Scn: r, Class: fmt.Sprintf("wire/counts/%s/runs=%d,e2e=%d", map[bool]string{false: "RunTraceroute", true: "http"}[http], c[0], c[1])})
 		}
 	}
+	// the same counts through the command-line front end
+	for _, c := range [][2]int{{0, 2}, {1, 0}, {3, 1}, {1, 1}} {
+		r := proto.RTScn{Hostname: "203.0.113.77", Protocol: "udp", MinTTL: 1, MaxTTL: 4, DelayMs: 50, TimeoutMs: 100, Queries: c[0], E2e: c[1], Dest: 3, IPIDBase: 1500, EchoBase: 150, CLI: true}
+		items = append(items, proto.RTItem{Scn: r, Class: fmt.Sprintf("wire/counts/cli/runs=%d,e2e=%d", c[0], c[1])})
+	}
 	// every run and every probe of a large request fails: each individual failure is exposed, through both entry points
 	for _, http := range []bool{false, true} {
 		for _, c := range [][2]int{{3, 20}, {2, 50}} {
